@@ -77,11 +77,15 @@ def decc : Handler := fun args _ =>
     | _, _ => unmodelled
   | _ => unmodelled
 
-def fn : Handler := fun args _ =>
+def fn : Handler := fun args impl =>
   match args with
   | fnm :: as =>
     match funcs.lookup fnm, as.mapM V.ofText with
-    | some f, some vs => { model := showR (fun rs => " | ".intercalate (rs.map V.toText)) (f vs) }
+    | some f, some vs =>
+      let m := showR (fun rs => " | ".intercalate (rs.map V.toText)) (f vs)
+      let o : List (String × String) :=
+        if fnm = "p.DHCPParseOptions" ∧ (impl = "panic" ∨ impl = "spin") then [("C08", s!"DHCPParseOptions: {impl}")] else []
+      { model := m, more := o }
     | _, _ => unmodelled
   | _ => unmodelled
 
@@ -249,7 +253,13 @@ def wantTypeOf (src : String) : Option Nat :=
   | none => none
 
 /-- `prog`: model-vs-implementation correspondence only (arguments may be arbitrary) -/
-def prog : Handler := fun args _ => { model := runProg ("".intercalate args) }
+def prog : Handler := fun args impl =>
+  let src := "".intercalate args
+  -- DHCP / LLDP decoders are methods named Write: totality (C08) is judged on the programs that call them
+  let isProtoDec : Bool := (src.splitOn ".Write(").length > 1 && (src.splitOn "p.").length > 1
+  let o : List (String × String) :=
+    if isProtoDec ∧ (impl = "panic" ∨ impl = "spin") then [("C08", s!"packet decoder called by the program: {impl}")] else []
+  { model := runProg src, more := o }
 
 /-- `api`: the same program syntax, used by the generators of VALID API histories (in-range arguments, finished
     children, affine use): the property oracles C01/C02/C06 are evaluated on the implementation's observation -/
